@@ -118,14 +118,15 @@ def rule_new_is_literal(ctx):
     callers = calls_to(facts, M, lambda t: callee(t) == PARSE)
     allowed_roots = ("pattern::Pattern::parse", "pattern::Pattern::reparse")
     for fn, bi, t in callers:
-        if fn.b.get("kind") == "Closure" and fn.b.get("root") in allowed_roots:
+        homes = set(fn.b.get("roots") or [fn.b.get("root")]) if fn.b.get("kind") == "Closure" else {fn.path}
+        if homes and homes <= set(allowed_roots):
             ctx.ok(site(fn, bi), "Atom::parse called from %s" % fn.path.split("::")[2])
         else:
             ctx.violation("%s|Atom::parse|caller" % fn.path, site(fn, bi), "the marker parser is reached from %s: literal construction must not interpret ! ^ ' $" % fn.path)
     ctx.floor("callers of Atom::parse", len(callers), 1)
     pn = None
     nc = []
-    for f_ in closure_tree(facts, M, "pattern::Pattern::new")[1:]:
+    for f_ in closure_tree(facts, M, "pattern::Pattern::new"):
         c_ = [(bi, t) for bi, t in f_.calls(lambda t: callee(t) == "pattern::Atom::new")]
         if c_:
             pn, nc = f_, c_
